@@ -568,7 +568,7 @@ def closures_in_term(t, out=None):
     elif k == "callind":
         for a in t[2]:
             closures_in_term(a, out)
-    elif k in ("cast", "ref", "deref", "discr", "repeat", "field"):
+    elif k in ("cast", "ref", "deref", "discr", "repeat", "field", "captured"):
         closures_in_term(t[1], out)
     elif k == "bin":
         closures_in_term(t[2], out)
